@@ -591,7 +591,7 @@ def main(argv):
 
     # emission: every abstract program up to the depth (no VIEW: the history is the state)
     d = tlc.prepare("c02/emit")
-    depth = 5 if tier == "quick" else 6
+    depth = 5   # every program of 5 abstract steps (about 4e5); depth 6 would be 6e6 programs
     r = tlc.must(tlc.run(d, "TrackedArray", cfg(asb=True, depth=depth, invs=["EmitLeaf"], view=False), workers=1, timeout=1800), "emit")
     note(f"emit all programs of {depth} steps (1 tracked view, 1 base view, 2 roots)", r)
     behs = list(r.printed)
@@ -603,12 +603,12 @@ def main(argv):
     behs += r.printed
     if tier == "thorough":
         r = tlc.run(d, "TrackedArray", cfg(asb=True, depth=10, tv="TV2", invs=["EmitLeaf"], view=False), workers=1,
-                    simulate="num=400", depth=11, seed=seed() + 3, timeout=1800)
+                    simulate="num=1500", depth=11, seed=seed() + 3, timeout=1800)
         note("simulate depth 10", r)
         behs += r.printed
     if n_a < 1000:
         raise MachineryError("emission too small")
-    nvar = 2 if tier == "quick" else 5
+    nvar = 2 if tier == "quick" else 9
     t0 = time.time()
     results = pmap(_chunk, [(i, b, nvar) for i, b in enumerate(behs)])
     nrep = 0
